@@ -326,7 +326,7 @@ Contract(
     kinds={"config": "obj:" + CONFIG},
     requires=[("domain", _dump_domain)],
     ensures=[(lab, _dump_clause(i), ("C14", "C08") if "translat" in lab else ("C14",)) for i, lab in enumerate(_DUMP_LABELS)],
-    modifies=[Ghost("uuid_ctr"), Ghost("xlate_log")],
+    modifies=[Ghost("uuid_ctr"), Ghost("xlate_log"), Ghost("x_kind"), Ghost("x_val")],
     props=("C14",),
 )
 
@@ -363,7 +363,7 @@ Contract(
             [("raises_exceptions_only", lambda c: implies(c.raised, c.raises(Exception)), ("C14", "C02"))] +
             [("fault_only_type_error", lambda c: implies(z3.And(c.raised, _is_fault(c, c.a.params)), c.raises(TypeError)), ("C14",))] +
             [("rejections_propagate", lambda c: implies(_dumps_rejects(c), c.raised), ("C14",))],
-    modifies=[Ghost("uuid_ctr"), Ghost("xlate_log"), Ghost("last_dumped")],
+    modifies=[Ghost("uuid_ctr"), Ghost("xlate_log"), Ghost("last_dumped"), Ghost("x_kind"), Ghost("x_val")],
     props=("C14",),
 )
 
@@ -411,7 +411,8 @@ Contract(
                                                         c.returns),
                                                  c.ret == jcl(eff_classes(c.old(c.a.config, "classes")), c.a.data)), ("C14", "C07")),
     ],
-    modifies=[Ghost("imports"), Ghost("constructs"), Ghost("xlate_log"), Param("data")],
+    modifies=[Ghost("imports"), Ghost("constructs"), Ghost("xlate_log"), Ghost("x_kind"), Ghost("x_val"),
+              Ghost("checked_name")],
     props=("C14", "C08"),
 )
 
@@ -439,6 +440,7 @@ Contract(
                                                        c.ret == jcl(eff_classes(c.old(c.a.config, "classes")),
                                                                     jloads_of(Val.s(c.a.data))))), ("C14", "C07")),
     ],
-    modifies=[Ghost("imports"), Ghost("constructs"), Ghost("xlate_log")],
+    modifies=[Ghost("imports"), Ghost("constructs"), Ghost("xlate_log"), Ghost("x_kind"), Ghost("x_val"),
+              Ghost("checked_name")],
     props=("C14", "C08"),
 )
